@@ -33,7 +33,7 @@ def run_slice(sl, scratch):
     with open(path, "w") as fh:
         fh.write(sl.source())
     env = dict(os.environ)
-    env.update(PYTHONPATH=VERIF + os.pathsep + "/repo", PYTHONDONTWRITEBYTECODE="1", OMP_NUM_THREADS="1", PYTHONWARNINGS="ignore")
+    env.update(PYTHONPATH=VERIF + os.pathsep + os.environ.get("VERIF_REPO", "/repo"), PYTHONDONTWRITEBYTECODE="1", OMP_NUM_THREADS="1", PYTHONWARNINGS="ignore")
     t0 = time.time()
     try:
         p = subprocess.run(
